@@ -173,6 +173,11 @@ func (w *bannerResponseWriter) WriteHeader(statusCode int) {
 	if w.wroteHeader {
 		return
 	}
+	if statusCode >= 100 && statusCode <= 199 {
+		// Interim (1xx) responses are not the final response; pass them through untouched.
+		w.wrapped.WriteHeader(statusCode)
+		return
+	}
 	w.wroteHeader = true
 	if !isFrameableHTMLResponse(statusCode, w.Header()) {
 		w.wrapped.WriteHeader(statusCode)
